@@ -1,5 +1,5 @@
 import SFV.Model.Locks
-import SFV.Model.Claims
+import SFV.Lemmas.Claims
 /-! # C19 — concurrent recoveries share work and never deadlock
 
 Two protocol models of `RollbackFailureManager._recover` / `_synchronize_workflows`: ordered acquisition of the
@@ -33,110 +33,14 @@ theorem unordered_locks_can_deadlock :
     · simp at hl; subst hl
       exact hfree ⟨[1, 0], 1, false⟩ (by simp) ⟨by simp, by simp⟩
 
-open Claims in
-/-- the invariant of the claim protocol with the lock -/
-def ClaimInv (s : Claims.St) : Prop :=
-  (∀ j, s.claims j ≤ 1) ∧ (∀ j, s.recovering j = false → s.claims j = 0) ∧
-  (∀ p j, s.pend p = some j → s.holder j = some p ∧ s.recovering j = false)
-
-open Claims in
-theorem claimInv_step {s a s'} (h : ClaimInv s) (hs : Claims.step ⟨true⟩ s a = some s') : ClaimInv s' := by
-  obtain ⟨h1, h2, h3⟩ := h
-  cases a with
-  | acquire p j =>
-    simp only [Claims.step] at hs
-    split at hs
-    · rename_i hfree
-      cases hs
-      refine ⟨h1, h2, ?_⟩
-      intro q k hq
-      have := h3 q k hq
-      by_cases hk : k = j
-      · subst hk; rw [hfree] at this; cases this.1
-      · simp [hk]; exact this
-    · cases hs
-  | check p j =>
-    simp only [Claims.step] at hs
-    split at hs
-    · rename_i hg
-      split at hs
-      · cases hs; exact ⟨h1, h2, h3⟩
-      · rename_i hr
-        cases hs
-        refine ⟨h1, h2, ?_⟩
-        intro q k hq
-        by_cases hqp : q = p
-        · subst hqp; simp at hq; subst hq
-          rcases hg.1 with hc | hh
-          · cases hc
-          · exact ⟨hh, by simpa using hr⟩
-        · simp [hqp] at hq; exact h3 q k hq
-    · cases hs
-  | claim p =>
-    simp only [Claims.step] at hs
-    split at hs
-    · rename_i j hp
-      cases hs
-      obtain ⟨hh, hr⟩ := h3 p j hp
-      have hc0 := h2 j hr
-      refine ⟨?_, ?_, ?_⟩
-      · intro k; by_cases hk : k = j
-        · subst hk; simp [hc0]
-        · simp [hk]; exact h1 k
-      · intro k hk'; by_cases hk : k = j
-        · subst hk; simp at hk'
-        · simp [hk] at hk' ⊢; exact h2 k hk'
-      · intro q k hq
-        by_cases hqp : q = p
-        · subst hqp; simp at hq
-        · simp [hqp] at hq
-          have hqk := h3 q k hq
-          by_cases hk : k = j
-          · subst hk; rw [hh] at hqk; cases hqk.1; exact absurd rfl hqp
-          · simp [hk]; exact hqk
-    · cases hs
-  | release p j =>
-    simp only [Claims.step] at hs
-    split at hs
-    · rename_i hg
-      cases hs
-      refine ⟨h1, h2, ?_⟩
-      intro q k hq
-      have hqk := h3 q k hq
-      by_cases hk : k = j
-      · subst hk
-        rw [hg.1] at hqk
-        cases hqk.1
-        exact absurd hq hg.2
-      · simp [hk]; exact hqk
-    · cases hs
-  | finish j =>
-    simp only [Claims.step] at hs
-    split at hs
-    · rename_i hg
-      cases hs
-      refine ⟨?_, ?_, ?_⟩
-      · intro k; by_cases hk : k = j
-        · subst hk; simp
-        · simp [hk]; exact h1 k
-      · intro k hk'; by_cases hk : k = j
-        · subst hk; simp
-        · simp [hk] at hk' ⊢; exact h2 k hk'
-      · intro q k hq
-        have hqk := h3 q k hq
-        by_cases hk : k = j
-        · subst hk; rw [hg] at hqk; cases hqk.2
-        · simp [hk]; exact hqk
-    · cases hs
-
 /-- **claim at most once per loss**: with the per-request lock, in every reachable state each producer has been claimed
     (its version incremented, its re-execution started) at most once since it last finished — the other recoveries that
     need it see it recovering and attach -/
 theorem claim_at_most_once_per_loss {s : Claims.St} (h : Claims.Reachable ⟨true⟩ s) (j : Nat) : s.claims j ≤ 1 := by
-  have : ClaimInv s := by
+  have : Claims.ClaimInv s := by
     induction h with
     | init => exact ⟨by intro j; simp [Claims.init], by intro j _; rfl, by intro p j h; cases h⟩
-    | step _ hs ih => exact claimInv_step ih hs
+    | step _ hs ih => exact Claims.claimInv_step ih hs
   exact this.1 j
 
 /-- without the lock the check and the claim of two recoveries interleave and the producer is claimed twice -/
